@@ -41,6 +41,8 @@ def main():
     os.chdir(scratch)
 
     def cohort(tag, n=5):
+        if kind == "mixture":
+            n = max(n, 9)    # (two clusters need a few individuals each)
         return workload.make_cohort(Stream(plan["gseed"], "cohort", tag), kind=kind, n=n, n_features=nf, max_visits=3, id_prefix="S")
 
     def tdig(ts):
@@ -147,7 +149,7 @@ def main():
                     elif k == "earlier_fit":
                         ok = op["kind"]
                         m = workload.make_model(ok, 3)
-                        d = workload.to_data(workload.make_cohort(Stream(plan["gseed"], "hist", ok), kind=ok, n=5, n_features=3, max_visits=3), ok)
+                        d = workload.to_data(workload.make_cohort(Stream(plan["gseed"], "hist", ok), kind=ok, n=9 if ok == "mixture" else 5, n_features=3, max_visits=3), ok)
                         m.fit(d, "mcmc_saem", n_iter=op["n_iter"], seed=op["s"], progress_bar=False)
                     elif k == "earlier_personalize":
                         ok = op["kind"]
